@@ -381,6 +381,28 @@ def rule_f6(repo, col):
                    construct="def %s: smoothing flag on smooth=True paths" % fn.name, function=fn.name)
 
 
+def rule_f7(repo, col):
+    """CNF serialisers (to_dimacs, to_lp, _contents) are readers: a text or table they keep for the next call is reset by every method that changes what it was computed from
+    (clauses, constraints, atom count, weights, names)"""
+    from .. import memo
+
+    c = repo.cls("problog.cnf_formula", "CNF")
+    m = c.module
+    readers = [nm for nm in ("to_dimacs", "to_lp", "_contents", "from_partial", "is_trivial", "clauses", "clausecount") if nm in c.methods]
+    n = 0
+    memos = set()
+    for attr, rd, wname, w, hit, resets, deps, node in memo.reader_memo_obligations(c.methods, readers, m.parents()):
+        n += 1
+        memos.add(attr)
+        col.decide("F7", m, node, resets, "CNF.%s changes %s and resets the memo %s kept by %s" % (wname, ", ".join(hit), attr, rd.name),
+                   "CNF.%s keeps what it computed in self.%s, which depends on self.%s; CNF.%s changes self.%s without resetting it: a CNF that was serialised once and then extended "
+                   "(add_clause / add_constraint, e.g. evidence added before a second compilation) is handed to the compiler with the stale text - the circuit no longer has the models "
+                   "of the CNF it was compiled from" % (rd.name, attr, ", self.".join(deps), wname, ", self.".join(hit)), construct="CNF.%s: memo %s not reset when %s changes" % (wname, attr, ", ".join(hit)),
+                   function="CNF.%s" % wname)
+    col.ok("F7", m, c.node, "CNF readers scanned for memos: %d reader methods, %d memo attributes, %d writer obligations" % (len(readers), len(memos), n), construct="class CNF: reader memo scan", function="CNF")
+    col.floor("F7.reader_methods", len(readers), 4)
+
+
 def run(repo, col):
     col.rule("F1", ".nnf reader: decision table over line kinds (atom, sign, children offsets, line counter)")
     col.rule("F2", "names: attached with their label to the signed node; absent literals -> TRUE / FALSE")
@@ -391,3 +413,5 @@ def run(repo, col):
     rule_compile(repo, col)
     col.rule("F6", "compiler wrappers request a smooth circuit")
     rule_f6(repo, col)
+    col.rule("F7", "CNF serialisers keep no stale memo")
+    rule_f7(repo, col)
